@@ -6,7 +6,11 @@ package c15
 //   - cut-off: buildExampleForMixedValueNode returns (nil, nil) when the first alternative's type
 //     has already been entered twice (processedTypes[t] > 1); the nearest enclosing object property
 //     / array element is then omitted, whatever its optionality.
-//     · consumed by an OPTIONAL property: harmless (the only situation the cut-off was made for)
+//     · consumed by an OPTIONAL property: harmless (the only situation the cut-off was made for). Optional is
+//     read per schema OBJECT (tg.PropOptional): `optional: true`, or no `optional` rule at all in the text of an
+//     object created with jschema.KeysAreOptionalByDefault() — the root and every added type have their own
+//     setting, and a property inherited through allOf keeps the reading of the PARENT's object (the heir copies the
+//     parent's required-keys list)
 //     · the cycle being cut contains an or-shortcut choice (the builder always takes the first
 //     alternative): K-C15-or
 //     · consumed by an array element: K-C15-arraycut
@@ -38,15 +42,32 @@ type sim struct {
 	cutOr    bool
 	cutArr   bool
 	cutReq   bool
+	rootOpt  bool
+}
+
+// oprop: a property together with the option of the schema object whose text holds it.
+type oprop struct {
+	tg.Prop
+	opt bool
 }
 
 type cut struct {
 	viaOr bool // the cycle that was cut contains an or-shortcut choice
 }
 
+// schemaOpt: the option of the schema object under examination: a type compiled as its own root is that type's
+// object, anything else is the root object of the graph.
+func schemaOpt(g *tg.Graph, name string, self bool) bool {
+	if self {
+		return g.Opt(name)
+	}
+	return g.RootOpt
+}
+
 func simulate(g *tg.Graph, root *tg.Node, name string, self bool) *sim {
 	s := &sim{g: g, processed: map[string]int{}, entered: map[string]bool{}, features: map[string]bool{}}
-	out, c := s.build(root)
+	s.rootOpt = schemaOpt(g, name, self)
+	out, c := s.build(root, s.rootOpt)
 	if out == nil && s.err == "" {
 		s.features["cut_at_root"] = true
 		if c != nil && c.viaOr {
@@ -60,14 +81,17 @@ func simulate(g *tg.Graph, root *tg.Node, name string, self bool) *sim {
 }
 
 // props: the properties of an object after CompileAllOf (own ones, then each parent's).
-func (s *sim) props(n *tg.Node, depth int) []tg.Prop {
-	out := append([]tg.Prop(nil), n.Props...)
+func (s *sim) props(n *tg.Node, opt bool, depth int) []oprop {
+	var out []oprop
+	for _, p := range n.Props {
+		out = append(out, oprop{p, opt})
+	}
 	if depth > 8 {
 		return out
 	}
 	for _, p := range n.AllOf {
 		if pt := s.g.Type(p); pt != nil && pt.Kind == tg.KObj {
-			out = append(out, s.props(pt, depth+1)...)
+			out = append(out, s.props(pt, s.g.Opt(p), depth+1)...)
 		}
 	}
 	return out
@@ -75,7 +99,8 @@ func (s *sim) props(n *tg.Node, depth int) []tg.Prop {
 
 func hasRules(n *tg.Node) bool { return n.TypeRef != "" || len(n.OrRule) > 0 }
 
-func (s *sim) build(n *tg.Node) ([]byte, *cut) {
+// build: n is a node of the text of a schema object whose option is opt.
+func (s *sim) build(n *tg.Node, opt bool) ([]byte, *cut) {
 	if s.err != "" {
 		return nil, nil
 	}
@@ -92,8 +117,8 @@ func (s *sim) build(n *tg.Node) ([]byte, *cut) {
 		}
 		buf := []byte{'{'}
 		first := true
-		for _, p := range s.props(n, 0) {
-			ex, c := s.build(p.Val)
+		for _, p := range s.props(n, opt, 0) {
+			ex, c := s.build(p.Val, p.opt)
 			if s.err != "" {
 				return nil, nil
 			}
@@ -101,6 +126,8 @@ func (s *sim) build(n *tg.Node) ([]byte, *cut) {
 				switch {
 				case p.Val.Optional:
 					s.features["cut_at_optional_property"] = true
+				case tg.PropOptional(p.Val, p.opt):
+					s.features["cut_at_unmarked_property_of_an_object_with_optional_keys"] = true
 				case c != nil && c.viaOr:
 					s.cutOr = true
 					s.features["cut_at_required_property_via_or"] = true
@@ -121,7 +148,7 @@ func (s *sim) build(n *tg.Node) ([]byte, *cut) {
 				if kt.Kind != tg.KLit || hasRules(kt) {
 					s.keyAlias = true
 				}
-				key, _ = s.build(kt)
+				key, _ = s.build(kt, s.g.Opt(p.Key))
 				if s.err != "" {
 					return nil, nil
 				}
@@ -145,7 +172,7 @@ func (s *sim) build(n *tg.Node) ([]byte, *cut) {
 		buf := []byte{'['}
 		first := true
 		for _, it := range n.Items {
-			ex, c := s.build(it)
+			ex, c := s.build(it, opt)
 			if s.err != "" {
 				return nil, nil
 			}
@@ -199,7 +226,7 @@ func (s *sim) build(n *tg.Node) ([]byte, *cut) {
 			s.err = "type not found"
 			return nil, nil
 		}
-		return s.build(body)
+		return s.build(body, s.g.Opt(t))
 	}
 	return nil, nil
 }
@@ -224,7 +251,7 @@ func (s *sim) class(g *tg.Graph, root *tg.Node, inh map[string]bool) string {
 }
 
 func (s *sim) uninhabited(g *tg.Graph, root *tg.Node, inh map[string]bool) bool {
-	if !tg.Inhabited(root, inh) {
+	if !tg.InhabitedIn(root, inh, s.rootOpt) {
 		return true
 	}
 	for t := range s.entered {
